@@ -161,9 +161,10 @@ class RayMeshIntersector:
         current = np.ones(len(ray_origins), dtype=bool)
 
         if multiple_hits or return_locations:
-            # how much to offset ray to transport to the other side of face
+            # how much to offset ray to transport to the other side of face:
+            # a fraction of the size of the geometry, in the units of the geometry
             distance = np.clip(
-                _ray_offset_factor * self._scale, _ray_offset_floor, np.inf
+                _ray_offset_factor * self.mesh.scale, _ray_offset_floor, np.inf
             )
             ray_offsets = ray_directions * distance
 
